@@ -37,6 +37,46 @@ from harness.common import Ctx, Infra, load_corpus, pmap
 from harness.common import lean_batch_parallel as _lean_batch_parallel
 
 
+def lean_batch_balanced(requests: list[dict], shards: int = 16) -> list[dict]:
+    """Like lean_batch_parallel, but the few very large requests (1 MiB tensors) are spread over the shards."""
+    from concurrent.futures import ThreadPoolExecutor
+
+    from harness.common import lean_batch
+
+    if len(requests) < 4 * shards:
+        return lean_batch_parallel(requests)
+
+    def weight(r):
+        m = r.get("repr") or {}
+        return 1 + sum(len(v) for v in m.values() if isinstance(v, list)) // 2000 + (50 if "inner" in m and isinstance(m["inner"].get("file"), list) and len(m["inner"]["file"]) > 100000 else 0)
+
+    order = sorted(range(len(requests)), key=lambda i: -weight(requests[i]))
+    loads, parts = [0] * shards, [[] for _ in range(shards)]
+    for i in order:
+        k = loads.index(min(loads))
+        parts[k].append(i)
+        loads[k] += weight(requests[i])
+
+    def run(part):
+        for attempt in range(12):
+            try:
+                return lean_batch([requests[i] for i in part])
+            except Infra:
+                if attempt == 11:
+                    raise
+                import time
+
+                time.sleep(5)
+
+    with ThreadPoolExecutor(shards) as ex:
+        outs = list(ex.map(run, parts))
+    res: list = [None] * len(requests)
+    for part, out in zip(parts, outs):
+        for i, o in zip(part, out):
+            res[i] = o
+    return res
+
+
 def lean_batch_parallel(requests: list[dict]) -> list[dict]:
     """The model driver, retried while another check's `lake build` is relinking the binary."""
     import time
@@ -59,11 +99,13 @@ THEOREMS = [
     "IrVerif.Pack.C04_pack_unpack2",
     "IrVerif.Pack.C04_le_roundtrip",
     "IrVerif.Pack.C04_nbytes",
+    "IrVerif.Pack.C04_pack_bitstream",
     "IrVerif.TensorRepr.C04_tables",
     "IrVerif.TensorRepr.C04_field_agree",
     "IrVerif.TensorRepr.C04_all_agree",
     "IrVerif.TensorRepr.C04_bytes_len",
     "IrVerif.TensorRepr.C04_tofile_at",
+    "IrVerif.TensorRepr.C04_tofile_paths",
     "IrVerif.TensorRepr.C04_tofile_repr",
     "IrVerif.TensorRepr.C04_serialize_roundtrip",
 ]
@@ -72,8 +114,17 @@ ASSUMPTIONS = [
     "numpy / ml_dtypes view, astype (two's complement wrap), frombuffer, resize and tofile semantics are "
     "modelled, not verified; they are exercised by the correspondence on every run",
     "little-endian host (the _IS_LITTLE_ENDIAN false branches are not modelled)",
-    "the model follows the repaired code for D20 D21 D22 D44 D45 (fix: commits 90f0973 e7c61b0 98406ca 205afd1 78dfe76); "
-    "string tensors (D48 D49 repaired by d8b3378 ee95482) are checked by the oracle only, they are outside the Lean model",
+    "DIFFERENTIAL ONLY (the harness reduces these to logical element order before the model sees them, so the "
+    "theorems say nothing about them; only the correspondence and the oracle check them): memory order and strides of "
+    "array-backed tensors (C / Fortran / negative strides / read-only), torch strides and contiguity, sign-extended "
+    "or ml_dtypes storage bytes of 2/4-bit elements, big-endian COMPLEX memory, the stateful behaviour of one "
+    "ExternalTensor object across calls (mapping reuse, release(), invalidate(), a failed load), string tensors. "
+    "Modelled with content: byte order of whole-byte array memory (little / big endian behind an array-compatible "
+    "object), the storage offset of a contiguous torch view, the three delivery mechanisms of tofile "
+    "(ndarray.tofile, copy_file_range rounds + seek + chunk loop, chunked write) and the packed bit layout "
+    "(against an independent bit-stream specification)",
+    "the model follows the repaired code for D20 D21 D22 D44 D45 D140 D142 (fix: commits 90f0973 e7c61b0 98406ca 205afd1 "
+    "78dfe76 9c34cc8 245cf00); string tensors (D48 D49 D141) and the call-history defect D143 are checked by the oracle only",
 ]
 
 M64 = (1 << 64) - 1
@@ -211,8 +262,7 @@ def canon_model(o: dict) -> dict:
     out = {k: r(o.get(k)) for k in ("dtype", "shape", "nbytes", "numpy", "tobytes", "serialize")}
     tf = o.get("tofile")
     out["tofile"] = {"bytes": [], "raised": True} if r(tf) == "raised" else tf
-    if "dest" in o:
-        out["dest"] = o["dest"]  # canonicalised against the request by the caller when raised
+    out["dests"] = o.get("dests", [])  # canonicalised against the request by the caller when raised
     return out
 
 
@@ -733,12 +783,29 @@ def oracle(ir, name, d, dims, xs, o, dests, fails, torch_ok, legal=True):
         fail("serialize", "raised")
     elif kind_of(name).split(">")[-1] != "external":
         # the ONNX reference decoder reads the repo's serialized proto back to the logical bits
+        if onnx_knows(int(d)):
+            try:
+                back = numpy_helper.to_array(o["_proto"])
+                if [u & ((1 << bw) - 1) for u in units_of(back)] != [int(x) for x in xs] or list(back.shape) != dims:
+                    fail("serialize", "wrong-bytes", ":onnx-reference-decodes-differently")
+            except Exception as e:  # the reference could not decode it
+                fail("serialize", "wrong-bytes", f":onnx-reference-raised-{type(e).__name__}")
+
+
+_ONNX_KNOWS: dict = {}
+
+
+def onnx_knows(code: int) -> bool:
+    """Whether the installed onnx package knows the element type (older releases lack INT2/UINT2, ...)."""
+    if code not in _ONNX_KNOWS:
+        import onnx
+
         try:
-            back = numpy_helper.to_array(o["_proto"])
-            if [u & ((1 << bw) - 1) for u in units_of(back)] != [int(x) for x in xs] or list(back.shape) != dims:
-                fail("serialize", "wrong-bytes", ":onnx-reference-decodes-differently")
-        except Exception as e:  # the reference could not decode it
-            fail("serialize", "wrong-bytes", f":onnx-reference-raised-{type(e).__name__}")
+            onnx.helper.tensor_dtype_to_np_dtype(code)
+            _ONNX_KNOWS[code] = True
+        except Exception:
+            _ONNX_KNOWS[code] = False
+    return _ONNX_KNOWS[code]
 
 
 _TORCH = None
@@ -777,7 +844,7 @@ def work_logical(item: dict) -> list:
             keep, seen_ext, seen_lazy = [], 0, 0
             for r in reprs:
                 nm_ = r[0]
-                if nm_ in ("array", "array-compat", "proto:raw_data", "packed", "torch", "torch-offset"):
+                if nm_ in ("array", "proto:raw_data", "packed"):
                     keep.append(r)
                 elif nm_.startswith("external:") and seen_ext < 3:
                     keep.append(r)
@@ -816,7 +883,7 @@ def work_logical(item: dict) -> list:
                         fails.append((f"reference.decode:{name}", "reference", "onnx.numpy_helper.to_array decodes the generated proto differently"))
                 except Exception:
                     pass
-            reqs = [{"m": "trepr.obs", "repr": model, "dest": dest_request(k)} for k in dests] or [{"m": "trepr.obs", "repr": model}]
+            reqs = [{"m": "trepr.obs", "repr": model, "dests": [dest_request(k) for k in dests]}]
             rt = None
             if "_proto" in o and not name.startswith("lazy") and (idx + j) % 2 == 0 and not big:
                 # deserialize(serialize(t)) observed again (a proto- or external-backed tensor)
@@ -904,9 +971,9 @@ def gen_more(ctx: Ctx) -> list[dict]:
                 for sh in SUBBYTE_SHAPES:
                     items.append({"d": code, "dims": list(sh), "xs": [rng.randrange(1 << bw) for _ in range(_prod(sh))], "round": 100 + r})
     mib = 1 << 20
-    bigs = [(2, mib + 5), (22, 2 * mib + 1)]  # UINT8: 1 MiB + 5 bytes; INT4: 1 MiB + 1 bytes (odd count)
-    if not ctx.quick:
-        bigs += [(1, 3 * mib // 4 + 1), (25, 4 * mib + 3), (16, 3 * mib // 2 + 7), (7, 3 * mib // 8 + 3)]  # >= 3 MiB, odd tails
+    bigs = [(2, mib + 5)]  # UINT8: 1 MiB + 5 bytes
+    if not ctx.quick:  # INT4 / UINT2 with odd counts (1 MiB + 1 bytes), and >= 3 MiB with odd tails
+        bigs += [(22, 2 * mib + 1), (25, 4 * mib + 3), (1, 3 * mib // 4 + 1), (16, 3 * mib // 2 + 7), (7, 3 * mib // 8 + 3)]
     for code, n in bigs:
         bw = SPEC[code][1]
         raw = rng.randbytes(n * max(1, bw // 8))
@@ -927,7 +994,7 @@ def gen_edge(ctx: Ctx, ir) -> list[dict]:
     edge = []
     codes = [0, 8] + list(SPEC)
     for _ in range(ctx.pick(1500, 12000)):
-        kind = rng.choice(["proto", "proto", "proto", "external", "packed", "torch"])
+        kind = rng.choice(["proto", "proto", "proto", "external", "packed", "torch", "array-shape"])
         d = rng.choice(codes + [27, 40])
         dims = rng.choice([[], [0], [1], [2], [3], [5], [2, 3], [4], [7]])
         n = _prod(dims)
@@ -953,6 +1020,11 @@ def gen_edge(ctx: Ctx, ir) -> list[dict]:
             if rng.random() < 0.06:
                 p["ext"] = {"offset": rng.choice([None, 0, 4]), "length": rng.choice([None, 4])}
             edge.append({"edge": "proto", "repr": p})
+        elif kind == "array-shape":
+            d = rng.choice([1, 2, 3, 5, 6, 7, 11, 12])
+            bw = SPEC[d][1]
+            m = rng.choice([n, n + 1, max(0, n - 1), 2 * n, 0])
+            edge.append({"edge": "array-shape", "repr": {"k": "array", "d": d, "dims": dims, "elems": [rng.getrandbits(bw) for _ in range(m)]}})
         elif kind == "external":
             if d > 26 or d in (0, 8):
                 d = rng.choice([1, 2, 21, 22, 25, 26, 10, 7, 14])
@@ -1011,6 +1083,9 @@ def make_from_model(ir, m: dict, workdir: str):
             with open(path, "wb") as f:
                 f.write(bytes(m["file"]))
         return lambda: ir.ExternalTensor(fn, m["offset"], m["length"], ir.DataType(m["d"]), shape=ir.Shape(m["dims"]), name="x", base_dir=workdir)
+    if k == "array":
+        arr = arr_from_bits(spec_np(m["d"]), [len(m["elems"])], m["elems"])
+        return lambda: ir.Tensor(arr, dtype=ir.DataType(m["d"]), shape=ir.Shape(m["dims"]))
     if k == "packed":
         return lambda: ir.PackedTensor(np.array(m["raw"], dtype=np.uint8), ir.DataType(m["d"]), shape=m["dims"])
     if k == "torch":
@@ -1101,8 +1176,16 @@ def check_tables(ctx: Ctx, ir) -> None:
         if real[key] is None:
             continue
         ctx.case(["table", key], nontrivial=True, sample={"table": key, "entries": len(real[key])}, kind="table")
-        if model.get(key) != real[key]:
-            diff = [(a, b) for a, b in itertools.zip_longest(model.get(key) or [], real[key]) if a != b][:3]
+        mval, rval = model.get(key), real[key]
+        if key in ("bitwidth", "np", "np_itemsize", "short"):  # dict tables: the order of the entries is irrelevant
+            mval, rval = sorted(mval or [], key=str), sorted(rval, key=str)
+        if key == "torch_mapped":  # dtypes a (not too old) torch does not have yet are not in its map
+            import torch
+
+            lacking = {c for c, (nm_, _b, _n) in SPEC.items() if nm_ in TORCH_NAME and not hasattr(torch, TORCH_NAME[nm_])}
+            mval = [c for c in mval if c not in lacking]
+        if mval != rval:
+            diff = [(a, b) for a, b in itertools.zip_longest(mval or [], rval) if a != b][:3]
             ctx.disagree(f"element-type table '{key}': Lean literal != _enums", {"table": key}, diff, None)
     ctx.exhaustive_scopes.append("element-type tables: every entry of _BITWIDTH_MAP, _NP_TYPE_TO_DATA_TYPE, _DATA_TYPE_TO_SHORT_NAME, "
                                  "the 27 enum members, is_floating_point/is_integer/is_signed and the torch dtype map")
@@ -1200,6 +1283,36 @@ def check_pack_functions(ctx: Ctx) -> None:
             except Exception:
                 impls.append("raised")
             cases.append((name + "-any", bs, n))
+    # the layout specification as a bit stream: element i occupies bits [i*w, (i+1)*w) of the little-endian
+    # bit stream of the bytes, first element in the LOW bits; computed here with integer arithmetic
+    # (independent of the packers), by the Lean specification `elemStream`, and read off the real bytes
+    def bits_of_bytes(bs):
+        v = int.from_bytes(bytes(bs), "little")
+        return [bool((v >> i) & 1) for i in range(8 * len(bs))]
+
+    def spec_bits(w, xs, nb):
+        out = []
+        for x in xs:
+            out += [bool((x >> i) & 1) for i in range(w)]
+        return out + [False] * (8 * nb - len(out))
+
+    for _ in range(ctx.pick(300, 3000)):
+        n = ctx.rng.randrange(0, 19)
+        for w, fn in ((4, tc.pack_4bitx2), (2, tc.pack_2bitx4)):
+            xs = [ctx.rng.randrange(1 << w) for _ in range(n)]
+            real = fn(np.array(xs, dtype=np.uint8)).tolist()
+            nb = (n * w + 7) // 8
+            reqs.append({"m": "pack.elembits", "bw": w, "xs": xs, "nb": nb})
+            impls.append(bits_of_bytes(real))
+            cases.append((f"bitstream{w}", xs, n))
+            if bits_of_bytes(real) != spec_bits(w, xs, nb):
+                ctx.fail(f"pack{w}-bitstream", "packed bytes are not the specified little-endian bit stream (first element in the low bits)", {"xs": xs, "got": real})
+        w = ctx.rng.choice([1, 2, 4, 8])
+        xs = [ctx.rng.getrandbits(8 * w) for _ in range(n % 5)]
+        real = list(np.array(xs, dtype=UINT[w]).astype(np.dtype(UINT[w]).newbyteorder("<")).tobytes())
+        reqs.append({"m": "pack.elembits", "bw": 8 * w, "xs": xs, "nb": len(xs) * w})
+        impls.append(bits_of_bytes(real))
+        cases.append((f"bitstream{8 * w}", xs, len(xs)))
     outs = lean_batch_parallel(reqs)
     for (name, xs, n), impl, out in zip(cases, impls, outs):
         ctx.case([name, xs, n], nontrivial=len(xs) > 0, fn=name, length=min(len(xs), 8))
@@ -1247,6 +1360,24 @@ def check_strings(ctx: Ctx, ir) -> None:
                 "lazy>deserialize(proto)": lambda: ir.LazyTensor(lambda: serde.deserialize_tensor(tp), dtype=ir.DataType.STRING, shape=ir.Shape(dims)),
                 "roundtrip": lambda: serde.deserialize_tensor(serde.serialize_tensor(serde.deserialize_tensor(tp))),
             }
+            # ir.tensor() on plain text / bytes values (D141)
+            nested = obj.tolist()  # nested lists of bytes (a bytes object for a scalar)
+            reps["ir.tensor(py:bytes)"] = lambda: ir.tensor(nested) if (n > 0 or dims == []) else ir.tensor(nested, dtype=ir.DataType.STRING)
+            reps["ir.tensor(py:bytes,dtype)"] = lambda: ir.tensor(nested, dtype=ir.DataType.STRING)
+            reps["ir.tensor(py:ndarray-object)"] = lambda: ir.tensor(obj)
+            try:
+                texts = [v.decode("utf-8") for v in vals]
+            except UnicodeDecodeError:
+                texts = None
+            if texts is not None:
+                tobj = np.empty(n, dtype=object)
+                tobj[:] = texts
+                tnested = tobj.reshape(dims).tolist()
+                reps["ir.tensor(py:str)"] = lambda: ir.tensor(tnested) if (n > 0 or dims == []) else ir.tensor(tnested, dtype=ir.DataType.STRING)
+                reps["ir.tensor(py:str,dtype)"] = lambda: ir.tensor(tnested, dtype=ir.DataType.STRING)
+                if not has_nul:  # fixed-width numpy string arrays cannot hold trailing NULs in the first place
+                    reps["ir.tensor(py:ndarray-U)"] = lambda: ir.tensor(np.array(texts, dtype=str).reshape(dims))
+                    reps["ir.tensor(py:ndarray-S)"] = lambda: ir.tensor(np.array(vals, dtype=np.bytes_).reshape(dims))
             for name, make in reps.items():
                 case = {"string": True, "dims": dims, "values": [v.hex() for v in vals], "repr": name}
                 ctx.case(["string", name, dims, case["values"]], nontrivial=n > 0, dtype="STRING", representation="string:" + name, shape=str(dims))
@@ -1263,6 +1394,14 @@ def check_strings(ctx: Ctx, ir) -> None:
                         ctx.fail(f"string.numpy{nul}:{name}", f"numpy() element values differ from the stored strings: {got[:3]}", case)
                     if hasattr(t, "string_data") and list(t.string_data()) != vals:
                         ctx.fail(f"string.string_data:{name}", "string_data() differs", case)
+                    if name.startswith("ir.tensor(py:") or name.startswith(("StringTensor", "deserialize")):
+                        # a string tensor made by the constructors is usable as one: nbytes, string_data()
+                        try:
+                            ok = int(t.nbytes) == sum(len(v) for v in vals) and hasattr(t, "string_data")
+                        except Exception:
+                            ok = False
+                        if not ok:
+                            ctx.fail(f"string.not-a-string-tensor:{name}", "nbytes raises / no string_data(): not a usable string tensor", case)
                     if name != "TensorProtoTensor":
                         sp = serde.serialize_tensor(t)
                         if list(sp.string_data) != vals or list(sp.dims) != dims or sp.data_type != 8:
@@ -1274,6 +1413,94 @@ def check_strings(ctx: Ctx, ir) -> None:
                         pass
                 except Exception as e:
                     ctx.fail(f"string.raised{nul}:{name}:{type(e).__name__}", "string tensor representation raised", case)
+
+
+# --------------------------------------------------------------------------- external tensor: call histories (oracle only)
+
+
+def check_external_state(ctx: Ctx, ir) -> None:
+    """An ExternalTensor keeps state (mapping, array, validity).  Whatever was called before -- reads in any
+    order, a read that failed because the data file is too short, release() -- a read must answer exactly
+    what a fresh tensor answers; after invalidate() every read raises ValueError.  (The Lean model describes
+    the fresh tensor; this stream is what ties the stateful object to it.)"""
+    rng = ctx.rng
+
+    def read(t, op):
+        try:
+            if op == "numpy":
+                return ("ok", units_of(t.numpy()))
+            if op == "tobytes":
+                return ("ok", list(t.tobytes()))
+            b = io.BytesIO()
+            try:
+                t.tofile(b)
+                return ("ok", list(b.getvalue()))
+            except Exception as e:
+                return ("raised", type(e).__name__, list(b.getvalue()))
+        except Exception as e:
+            return ("raised", type(e).__name__)
+
+    with tempfile.TemporaryDirectory(prefix="c04-") as wd:
+        for i in range(ctx.pick(200, 2000)):
+            code = rng.choice([1, 2, 5, 7, 10, 14, 21, 25])
+            _nm, bw, _ = SPEC[code]
+            dims = rng.choice([[1], [3], [5], [2, 3], [0]])
+            n = _prod(dims)
+            xs = [rng.getrandbits(bw) for _ in range(n)]
+            rb = ref_bytes(bw, xs)
+            pre = rng.choice([0, 0, 3])
+            fkind = rng.choice(["legal", "legal", "short", "short1", "empty"]) if n else "legal"
+            content = bytes(range(1, pre + 1)) + rb + (b"\x09\x08" if rng.random() < 0.5 else b"")
+            if fkind == "short":
+                content = content[: pre + len(rb) // 2]
+            elif fkind == "short1":
+                content = content[: pre + len(rb) - 1]
+            elif fkind == "empty":
+                content = b""
+            fn = f"st_{i % 7}.bin"
+            with open(os.path.join(wd, fn), "wb") as f:
+                f.write(content)
+            length = rng.choice([None, len(rb)])
+
+            def mk():
+                return ir.ExternalTensor(fn, pre or rng.choice([0, None]), length, ir.DataType(code), shape=ir.Shape(dims), name="x", base_dir=wd)
+
+            fresh = {op: read(mk(), op) for op in ("numpy", "tobytes", "tofile")}
+            seq = [rng.choice(["numpy", "tobytes", "tofile", "numpy", "tobytes", "release"]) for _ in range(rng.randrange(2, 7))]
+            if rng.random() < 0.25:
+                seq.insert(rng.randrange(1, len(seq) + 1), "invalidate")
+                seq.append(rng.choice(["numpy", "tobytes", "tofile"]))
+            t = mk()
+            hist, invalid = "first", False
+            case = {"external-state": True, "dtype": SPEC[code][0], "dims": dims, "file": fkind, "offset": pre, "length": length, "calls": seq}
+            ctx.case(["external-state", code, dims, xs, fkind, pre, length, seq], nontrivial=True, representation="external-state", state_file=fkind)
+            for op in seq:
+                if op == "release":
+                    try:
+                        t.release()
+                    except Exception as e:
+                        ctx.fail(f"external.state:release-raised:{fkind}", f"release() raised {type(e).__name__}", case)
+                    hist = "release"
+                    continue
+                if op == "invalidate":
+                    t.invalidate()
+                    invalid, hist = True, "invalidate"
+                    continue
+                got = read(t, op)
+                want = ("raised", "ValueError") if invalid else fresh[op]
+                okay = got[:2] == want[:2] if invalid else (got[0] == want[0] and (got[0] == "raised" or got == want))
+                if not okay:
+                    ctx.fail(f"external.state:{op}-after-{hist}:{fkind}",
+                             f"{op}() after {hist} answers differently from a fresh tensor ({str(got)[:60]} vs {str(want)[:60]})", case)
+                ctx.count(f"state_call={op}-after-{hist}")
+                if got[0] == "raised" and not invalid:
+                    hist = "failed-load" if op != "tofile" else "failed-tofile"
+                elif not invalid:
+                    hist = "reads"
+            try:
+                t.release()
+            except Exception:
+                pass
 
 
 # --------------------------------------------------------------------------- run
@@ -1298,10 +1525,10 @@ def compare_obs(model_obs: list[dict], impl: dict, dests: list[str], reqs: list[
     for k in ("dtype", "shape", "nbytes", "numpy", "tobytes", "tofile", "serialize"):
         if m[k] != impl[k]:
             diffs.append((k, m[k], impl[k]))
-    for mo, dk, rq in zip(model_obs, dests, reqs):
-        md = mo.get("dest")
+    for md, dk in zip(m["dests"], dests):
+        rq = dest_request(dk)
         if isinstance(md, dict) and "raised" in md and len(md) == 1:
-            md = {"img": rq["dest"]["img"], "pos": rq["dest"]["pos"], "raised": True}
+            md = {"img": rq["img"], "pos": rq["pos"], "raised": True}
         if md != impl["dest"][dk]:
             diffs.append(("dest", {dk: md}, {dk: impl["dest"][dk]}))
     return diffs
@@ -1368,7 +1595,7 @@ def run_items(ctx: Ctx, items: list) -> None:
         reqs.extend(rec["reqs"])
         if rec["rt"] is not None:
             reqs.append(rec["rt"]["req"])
-    outs = lean_batch_parallel(reqs)
+    outs = lean_batch_balanced(reqs)
     process_records(ctx, all_recs, iter(outs))
 
 
@@ -1391,6 +1618,7 @@ def run(ctx: Ctx) -> None:
         ctx.count("corpus_cases", len(corpus))
     check_tables(ctx, ir)
     check_strings(ctx, ir)
+    check_external_state(ctx, ir)
     check_pack_functions(ctx)
     items = gen_logical(ctx, ir) + gen_more(ctx)
     items.sort(key=lambda it: not it.get("big"))  # the large tensors first (they take longest)
@@ -1428,10 +1656,11 @@ def run(ctx: Ctx) -> None:
 
 def replay(ctx: Ctx, obj: dict) -> None:
     case = obj.get("case") or obj
-    if isinstance(case, dict) and case.get("string"):
+    if isinstance(case, dict) and (case.get("string") or case.get("external-state")):
         import onnx_ir as ir
 
         check_strings(ctx, ir)
+        check_external_state(ctx, ir)
     elif isinstance(case, dict) and "d" in case and "dims" in case and "xs" in case:
         run_items(ctx, [{"d": case["d"], "dims": case["dims"], "xs": case["xs"], "idx": case.get("idx", 0)}])
     else:
